@@ -22,14 +22,14 @@ ID = "C09"
 RULE = ("simple graphs without isolated vertices: atlas graphs with <= 6 vertices (quick: sampled; thorough: all of them for every m0), G(n,p) "
         "n <= 12 (thorough <= 16) with p in {.2,.35,.5,.7,.9}, planted structures (chains of K_k sharing an edge, K_k u K_k sharing K_{k-1}, "
         "wheels, K_n n<=8, books, rings of K4), and every 4th (quick) / 10th (thorough) case a large sparse graph (union of 8..24 mostly edge-disjoint cliques plus an "
-        "overlapping cluster, 20..70 vertices, or G(n,p) with n<=40, p<=.15); m0 in 2..omega+1; the bound is set before, after, or between the edge insertions, or twice; schedules first/last/3 seeds + exhaustive tie-break trees up to 64 leaves; "
+        "overlapping cluster, 20..70 vertices, or G(n,p) with n<=40, p<=.15); m0 in 2..omega+1; the bound is set before, after, or between the edge insertions, or twice, or changed after a read-only look at the candidate list, or the object is reused after a first cover; schedules first/last/3 seeds + exhaustive tie-break trees up to 64 leaves; "
         "non-trivial = a maximal clique larger than m0 overlapping another one, or >= 1 tie-break with >= 2 candidates; distinct = SHA-1 of (graph, m0)")
 ASSUMPTIONS = ["vertices are ints; order of the returned list and of vertices inside a clique is ignored",
                "progress bound: each greedy step must cover a new edge, so more than |E| tie-break calls is a violation"]
 HEADLINE = ["pairs", "runs", "edges_covered_exactly_once", "tie_breaks", "tie_breaks_multi", "exhaustive_trees", "tree_leaves", "trees_truncated",
-            "larger_than_m0", "intact_rule_applied", "greedy_steps", "m0_2", "m0_ge_omega", "large_sparse_graphs", "build_bound-then-edges", "build_interleaved", "build_bound-twice"]
+            "larger_than_m0", "intact_rule_applied", "greedy_steps", "m0_2", "m0_ge_omega", "large_sparse_graphs", "build_bound-then-edges", "build_interleaved", "build_bound-twice", "build_peek-then-rebound", "build_reuse"]
 REQUIRED = {t: {"runs": 1000, "larger_than_m0": 30, "intact_rule_applied": 30, "greedy_steps": 100, "tie_breaks_multi": 50,
-                "exhaustive_trees": 50, "m0_2": 20, "m0_ge_omega": 20, "large_sparse_graphs": 10, "build_bound-then-edges": 50, "build_interleaved": 50, "build_bound-twice": 50} for t in ("quick", "thorough")}
+                "exhaustive_trees": 50, "m0_2": 20, "m0_ge_omega": 20, "large_sparse_graphs": 10, "build_bound-then-edges": 50, "build_interleaved": 50, "build_bound-twice": 50, "build_peek-then-rebound": 50, "build_reuse": 50} for t in ("quick", "thorough")}
 SHARD_TIMEOUT = {"quick": 600, "thorough": 7200}
 LEAF_CAP = 64
 
@@ -71,9 +71,22 @@ def one_run(res, edges, m0, tap, ctx):
             sut("add_edge", e.add_edge, x)
         sut("set_max_clique_size", e.set_max_clique_size, m0)
         sut("add_edges_from", e.add_edges_from, es[k:])
-    else:   # "bound-twice": a provisional bound first, the real one last
+    elif order == "bound-twice":   # a provisional bound first, the real one last
         sut("set_max_clique_size", e.set_max_clique_size, 2 if m0 != 2 else 5)
         sut("add_edges_from", e.add_edges_from, es)
+        sut("set_max_clique_size", e.set_max_clique_size, m0)
+    elif order == "peek-then-rebound":
+        # history on one object: the candidate list is inspected under a provisional (larger) bound, then the bound is changed
+        sut("add_edges_from", e.add_edges_from, es)
+        sut("set_max_clique_size", e.set_max_clique_size, m0 + 1)
+        sut("limited_maximal_cliques (read-only peek)", e.limited_maximal_cliques)
+        sut("set_max_clique_size", e.set_max_clique_size, m0)
+    else:   # "reuse": the object has already produced a cover of the same graph under another bound; the edges are put back
+        sut("add_edges_from", e.add_edges_from, es)
+        sut("set_max_clique_size", e.set_max_clique_size, m0 + 2 if m0 < 4 else 2)
+        with installed(RandomTap(seed=5, keep_log=False), "eecc"):
+            sut("get_EECC (first use of the object)", e.get_EECC)
+        sut("add_edges_from (again)", e.add_edges_from, es)
         sut("set_max_clique_size", e.set_max_clique_size, m0)
     with installed(tap, "eecc"):
         cover = sut("get_EECC", e.get_EECC)
@@ -163,7 +176,7 @@ def run_case(case):
         for kind, val in scheds:
             tap = RandomTap(seed=val if kind == "seed" else 0, preset={"choice": val} if kind == "preset" else None, on_event=guard)
             r = one_run(res, edges, m0, tap, dict(base, schedule=[kind, val],
-                                                   build_order=rng.choice(["edges-then-bound", "edges-then-bound", "bound-then-edges", "interleaved", "bound-twice"])))
+                                                   build_order=rng.choice(["edges-then-bound", "edges-then-bound", "bound-then-edges", "interleaved", "bound-twice", "peek-then-rebound", "reuse"])))
             if r is None:
                 ok = False; break
             cl, ties = r
